@@ -171,3 +171,7 @@ Fixpoint lmap (f : complex -> complex) (l : sellist) : sellist :=
 Definition nest_ok (c : sellist * sellist * sellist) : bool :=
   let '(parents, child, out) := c in sl_eqb (lmap (lower_is parents) child) out.
 Definition check_nest := mismatches nest_ok.
+Fixpoint list2l (l : list complex) : sellist := match l with [] => LNil | x :: r => LCons x (list2l r) end.
+Definition nestx_ok (c : sellist * sellist * sellist) : bool :=
+  let '(parents, child, out) := c in sl_eqb (list2l (lower_expand parents child)) out.
+Definition check_nestx := mismatches nestx_ok.
